@@ -236,6 +236,23 @@ def side_effect_cases(ctx, rng):
             ctx.spec_failures.append(("C13:inference-modified-state", {"state": state, "acts": acts, "weights": wq, "changed": diff[:6], "inplace_step": inplace}))
         if outs[0] != outs[1] or outs[1] != outs[2]:
             ctx.spec_failures.append(("C13:repeated-evaluation-differs", {"state": state, "acts": acts, "weights": wq, "inplace_step": inplace}))
+        # quantize_activation with scales that are subnormal in their dtype (and ordinary ones): the scale tensor is only read
+        for sv in (2e-5, 3e-8, 0.37, 1e-40):
+            sc_ = torch.tensor(sv).to(dt)
+            if float(sc_) == 0:
+                continue
+            sb = bits_of(sc_)
+            xa = torch.randn(4, 6).to(dt)
+            ha = tensor_hash(xa)
+            for qn_ in ("qint8", "qfloat8_e4m3fn", "qfloat8_e5m2"):
+                try:
+                    q.quantize_activation(xa, q.qtypes[qn_], sc_)
+                except Exception:  # noqa
+                    pass
+                ctx.evaluations += 1
+                if bits_of(sc_) != sb or tensor_hash(xa) != ha:
+                    ctx.spec_failures.append(("C13:library-call-modified-its-input", {"call": "quantize_activation", "qtype": qn_, "dtype": str(dt), "scale_before": float(torch.tensor(sv).to(dt)), "scale_after": float(sc_)}))
+                    break
         # quantize_weight over qtypes / axes / group sizes (also the group size that makes one group per axis index) and ranks
         shp = rng.choice([[8, 16], [32, 64], [16, 4, 8], [4, 2, 4, 8], [16]])
         wx = torch.randn(shp).to(dt)
